@@ -9,12 +9,19 @@ def SegsOK (l : List Seg) : Prop := ∀ g ∈ l, SelOK g
 
 /-- what the theorems assume of `ConcreteEngine::Compose`: it never leaves a segment whose selected
 index dangles (it keeps old segments' menu/index pairs or installs a fresh menu with index 0) -/
-def ComposeSpec (rc : Bytes → Nat → Comp → Comp) : Prop :=
-  ∀ input caret c, SegsOK c.segs → SegsOK (rc input caret c).segs
+structure ComposeSpec (rc : Bytes → Nat → Comp → Comp) : Prop where
+  segs : ∀ input caret c, SegsOK c.segs → SegsOK (rc input caret c).segs
+  /-- the composition is computed for (a prefix of) the raw input it is given -/
+  input_le : ∀ input caret c, (rc input caret c).input.length ≤ input.length
 
-structure Inv (c : Ctx) : Prop where
+/-- what must hold of a state just before the engine recomposes it -/
+structure PreInv (c : Ctx) : Prop where
   caret_le : c.caret ≤ c.input.length
   segs_ok : SegsOK c.comp.segs
+
+structure Inv (c : Ctx) : Prop extends PreInv c where
+  /-- the composition's own copy of the input is no longer than the raw input -/
+  cinput_le : c.comp.input.length ≤ c.input.length
 
 theorem selOK_mk' (s e : Nat) : SelOK (Seg.mk' s e) := by
   intro l h; simp [Seg.mk'] at h
@@ -69,6 +76,18 @@ theorem forward_ok {c : Comp} (h : SegsOK c.segs) : SegsOK c.forward.1.segs := b
     · exact h
     · exact SegsOK.append h (SegsOK.singleton (selOK_mk' _ _))
 
+theorem forward_input (c : Comp) : c.forward.1.input = c.input := by
+  unfold Comp.forward
+  split
+  · rfl
+  · split <;> rfl
+
+theorem trim_input (c : Comp) : c.trim.1.input = c.input := by
+  unfold Comp.trim
+  split
+  · rfl
+  · split <;> rfl
+
 theorem trim_ok {c : Comp} (h : SegsOK c.segs) : SegsOK c.trim.1.segs := by
   unfold Comp.trim
   split
@@ -85,11 +104,11 @@ open Ctx
 variable {env : Env}
 
 theorem Inv.of_same {c c' : Ctx} (h : Inv c) (h1 : c'.input = c.input) (h2 : c'.caret = c.caret)
-    (h3 : SegsOK c'.comp.segs) : Inv c' :=
-  ⟨by rw [h1, h2]; exact h.caret_le, h3⟩
+    (h3 : SegsOK c'.comp.segs) (h4 : c'.comp.input = c.comp.input := by rfl) : Inv c' :=
+  ⟨⟨by rw [h1, h2]; exact h.caret_le, h3⟩, by rw [h4, h1]; exact h.cinput_le⟩
 
-theorem update_inv (hrc : ComposeSpec env.recompose) {c : Ctx} (h : Inv c) : Inv (update env c) :=
-  ⟨h.caret_le, hrc _ _ _ h.segs_ok⟩
+theorem update_inv (hrc : ComposeSpec env.recompose) {c : Ctx} (h : PreInv c) : Inv (update env c) :=
+  ⟨⟨h.caret_le, hrc.segs _ _ _ h.segs_ok⟩, hrc.input_le _ _ _⟩
 
 theorem clear_inv (hrc : ComposeSpec env.recompose) (c : Ctx) : Inv (clear env c) := by
   unfold clear
@@ -151,7 +170,7 @@ theorem modLastSeg_inv' {c : Ctx} (h : Inv c) {f : Seg → Seg} {g : Seg} (hg : 
   h.of_same rfl rfl (segsOK_modLast' h.segs_ok hg hf)
 
 theorem modComp_forward_inv {c : Ctx} (h : Inv c) : Inv (c.modComp (fun k => k.forward.1)) :=
-  h.of_same rfl rfl (forward_ok h.segs_ok)
+  h.of_same rfl rfl (forward_ok h.segs_ok) (forward_input c.comp)
 
 theorem selOK_close {g : Seg} (h : SelOK g) : SelOK g.close := by
   unfold Seg.close
@@ -189,7 +208,7 @@ theorem onSelect_inv (hrc : ComposeSpec env.recompose) {c : Ctx} (h : Inv c) : I
         modComp_forward_inv (modLastSeg_inv h (fun _ _ => hclose))
       split
       · exact setCaretPos_inv hrc h1 _
-      · exact update_inv hrc h1
+      · exact update_inv hrc h1.toPreInv
 
 theorem selOK_setIdx {g : Seg} {i : Nat} (s : Status) (hi : ∀ l, g.menu = some l → l ≠ [] → i < l.length) :
     SelOK { g with selIdx := i, status := s } := hi
@@ -237,7 +256,7 @@ theorem highlight_inv (hrc : ComposeSpec env.recompose) {c : Ctx} (h : Inv c) (i
       rw [hni]
       split
       · exact h
-      · refine update_inv hrc (modLastSeg_inv' h hg ?_)
+      · refine update_inv hrc (modLastSeg_inv' h hg ?_).toPreInv
         intro l hl hne
         have hl' : g.menu = some l := hl
         rw [prepare_le hl'] at hni
@@ -299,17 +318,18 @@ theorem reopenPreviousSegment_inv (hrc : ComposeSpec env.recompose) {c : Ctx} (h
     Inv (reopenPreviousSegment env c).1 := by
   unfold reopenPreviousSegment
   have ht : SegsOK c.comp.trim.1.segs := trim_ok h.segs_ok
-  generalize hk : c.comp.trim = kt at ht
+  have hti : c.comp.trim.1.input = c.comp.input := trim_input c.comp
+  generalize hk : c.comp.trim = kt at ht hti
   obtain ⟨k, trimmed⟩ := kt
-  dsimp only at ht ⊢
+  dsimp only at ht hti ⊢
   split
-  · have h1 : Inv { c with comp := k } := h.of_same rfl rfl ht
+  · have h1 : Inv { c with comp := k } := h.of_same rfl rfl ht hti
     refine update_inv hrc ?_
     split
     · split
-      · exact (modLastSeg_inv h1 (fun g hg => selOK_reopen hg _))
-      · exact h1
-    · exact h1
+      · exact (modLastSeg_inv h1 (fun g hg => selOK_reopen hg _)).toPreInv
+      · exact h1.toPreInv
+    · exact h1.toPreInv
   · exact h
 
 theorem clearPreviousSegment_inv (hrc : ComposeSpec env.recompose) {c : Ctx} (h : Inv c) :
@@ -347,7 +367,7 @@ theorem reopenPreviousSelection_inv (hrc : ComposeSpec env.recompose) {c : Ctx} 
   split
   · exact h
   · rename_i r hr
-    refine update_inv hrc (h.of_same rfl rfl ?_)
+    refine update_inv hrc (Inv.toPreInv (h.of_same (c' := c.modComp (fun k => { k with segs := r.reverse })) rfl rfl ?_ rfl))
     simpa [Ctx.modComp] using (reopenSelRev_ok _ h.segs_ok.reverse hr).reverse
 
 theorem dropNonConfirmedRev_ok : ∀ {l : List Seg}, SegsOK l → SegsOK (dropNonConfirmedRev l).1
@@ -378,7 +398,7 @@ theorem refreshNonConfirmedComposition_inv (hrc : ComposeSpec env.recompose) {c 
   obtain ⟨c1, r⟩ := p
   dsimp only at h1 ⊢
   split
-  · exact update_inv hrc h1
+  · exact update_inv hrc h1.toPreInv
   · exact h
 
 theorem setOptionRaw_inv {c : Ctx} (h : Inv c) (n : String) (v : Bool) : Inv (c.setOptionRaw n v) :=
